@@ -37,18 +37,19 @@ CHECKS = {
         ref="4 C13", technique="Coq proof (invariant over op histories + refinement to an abstract file) + vm_compute correspondence on histories",
         note=TB + " The machine controller's read/write are replaced by a recording fake (C07 covers them)."),
     "C01": dict(
-        text="Partial (end to end). Proved for all inputs: the composition theorem (any routing tree whose nodes agree with "
-             "the tables' first-match/default-routing behaviour is delivered exactly to its leaf cores and endpoint links, over "
-             "live hardware, without drop or circulation; no distinct-chips hypothesis needed), determinism and the default-"
-             "routing lemmas of the hardware model, and the soundness of the executable checker check_delivery w.r.t. the "
-             "inductive delivery semantics. The for-all over real place/route/minimise executions is carried per instance: "
-             "the real pipeline (7 placer configurations, both wrappers, all minimiser chains/targets) is run on generated "
-             "problems and every resulting mapping is decided inside Coq by check_delivery (each `true` is a kernel-checked "
-             "proof for that mapping) and by an independent Python packet simulator.",
-        ref="4 C01", technique="Coq proof (big-step delivery semantics, induction on routing trees, verified validator) + validator evaluated in Coq on real pipeline outputs",
-        note=TB + " That rig's router/table generator/minimisers always produce tree-consistent tables is C03/C10/C04; the "
-             "rig_c_sa annealing kernel is third-party compiled code (outputs validated only). Link/route numbering is tied to "
-             "the live modules by a regenerated unit (GenNetwork)."),
+        text="End to end for the models, per instance for real executions. Proved for all inputs: (i) the hardware delivery "
+             "semantics (first match, default routing, drop, dead links) and the composition theorem: any routing tree whose nodes "
+             "agree with the tables is delivered exactly once to its leaf cores and endpoint links, over live hardware, without drop "
+             "or circulation; (ii) premise discharge: for pairwise non-intersecting net keys and valid trees (C03's conclusion), the "
+             "MODEL of routing_tree_to_tables (C10) always succeeds and its tables satisfy that agreement; route_eq (C04) preserves "
+             "the hardware behaviour incl. the default-routed case; generated tables lie in the minimisers' domain; hence (iii) "
+             "C01_end_to_end_models: generation followed by the MODEL of minimise_tables (any method chain, any non-failing targets) "
+             "delivers every net's packet exactly to its sinks' cores. The gap between models and real executions of the whole "
+             "pipeline (7 placer configurations, both wrappers) is closed per instance: every real mapping is decided inside Coq by "
+             "the verified checker check_delivery and by an independent Python packet simulator.",
+        ref="4 C01", technique="Coq proof (big-step delivery semantics, tree induction, composition of the C10/C04/C03 models; verified validator) + validator evaluated in Coq on real pipeline outputs",
+        note=TB + " Placement/allocation feasibility is C02/C05; the rig_c_sa kernel is third-party compiled code (outputs validated "
+             "only). Units GenNetwork, GenTable*, GenRouter, GenGeometry* are regenerated on every run."),
     "C18": dict(
         text="Universal theorems over all signatures, nestings and exit paths of a Gallina model of the contextual-argument "
              "wrapper and context stack: resolution precedence (explicit > innermost context > default) and totality, "
@@ -221,19 +222,20 @@ CHECKS = {
         ref="4 C09", technique="Coq proof (machine/controller refinement, invariant over attempts) + py2v/ast translation + vm_compute correspondence + trace validator",
         note=TB + " SC&MP flood-fill semantics as written in Model/Load.v; guards on binary size (multiple of 4, <= 255 blocks) are stated in the theorems."),
     "C03": dict(
-        text="Partial. Proved for all inputs: on every fault-free torus or mesh (any w, h >= 1 incl. 1xN and 2xN, any source, "
-             "duplicated destinations, any radius, any random stream) ner_net returns a tree rooted at the source with no chip twice, "
-             "every hop a working adjacent link and every destination a node (on C11's geometry theorems and the cut-at-last-"
-             "intersection lemma), and route() then satisfies the property's whole sentence incl. the leaves whenever the tree "
-             "touches no dead link; copy_and_disconnect_tree keeps exactly the live chips once each over working links; one repair "
-             "splice over new ground; refutation for the duplicate-child defect of the code as found; soundness of the executable "
-             "validators check_tree (ValidTree) and check_connected. NOT proved for all inputs: the re-parenting case of the repair "
-             "step, A* completeness on every connected fault map and the composition of repairs in set order -- these are carried "
-             "per output: check_tree/check_connected are evaluated in Coq on every real route() output, plus exact tree "
-             "correspondence (scripted random stream and logged set orders) and an independent oracle incl. a dense-fault stream.",
-        ref="4 C03", technique="Coq proof (walk/tree induction on C11 geometry; verified validators) + vm_compute correspondence + validators evaluated on real outputs",
-        note=TB + " partial: repair re-parenting, A* completeness and repair composition are certified per output by the validators; "
-             "Python set iteration orders are logged and fed to the model."),
+        text="Full for the model, plus per-output certification. Theorems for every machine (w, h >= 1, any dead chips and "
+             "directed dead links), placement, allocation, constraint list, radius, random stream and set-iteration order: "
+             "route() returns a ValidTree (rooted at the source's chip, no chip twice, every hop a working link from a working "
+             "chip to the adjacent chip modulo the dimensions, every sink a leaf on its chip routed to exactly its cores or its "
+             "constrained endpoint, no other leaves) or the disconnected-machine error, the latter ONLY on a machine that is not "
+             "connected; it never fails otherwise and always terminates. Built from: ner_net on fault-free tori/meshes (on C11's "
+             "geometry theorems; cut at the last intersection), copy_and_disconnect invariant, A* soundness AND completeness "
+             "(closed-set invariant), the repair splice in full generality incl. re-parenting through the orphaned subtree "
+             "(post-fix parent search), composition over the broken links in any order; refutation theorem for the duplicate-child "
+             "defect of the code as found. Verified validators check_tree / check_connected are additionally evaluated in Coq on "
+             "every real route() output; exact tree correspondence with scripted random stream and logged set orders; "
+             "independent oracle incl. a dense-fault stream.",
+        ref="4 C03", technique="Coq proof (walk/tree induction on C11 geometry, A* closed-set invariant, forest invariant for repairs; verified validators) + vm_compute correspondence + validators on real outputs",
+        note=TB + " Python set iteration orders are logged and fed to the model (theorems hold for every order); geometry kernels are the C11 translated units."),
 }
 NOT_YET = {}
 def main():
